@@ -127,6 +127,11 @@ pub fn gen_case(prop: &str, seed: u64, tier: &str, run: u64) -> Case {
             p.max_ops = 9;
             mode = Mode::LogDamage { budget: if thorough { 6000 } else { 700 }, dseed: rng.next() };
         }
+        "C11" => {
+            p.min_ops = 0;
+            p.max_ops = 0;
+            mode = Mode::Procs { pseed: rng.next() };
+        }
         "C12" => {
             if rng.chance(1, 4) {
                 p = crash_profile(thorough);
@@ -304,6 +309,7 @@ pub fn spec_more(prop: &str) -> Option<Spec> {
         "C08" => s("C08", "seq", "exploration", 800, 8000, "crash images of seeded histories plus planted garbage (well-formed names of arbitrary hashes, ill-formed names, stray files at all depths, damaged referenced blobs, leftover staging files); OrphanStats and RecoveryResult compared with the checker's own directory/index comparison; one of the three clean-ups applied and its effect on the directory checked"),
         "C09" => s("C09", "seq", "fault_enumeration", 400, 4000, "Sync mode only; per sampled history, per sampled cut (<= 60 quick / 200 thorough boundaries): all 2^d loss sets of the d dirty files when d <= 4, else all/none/singletons/8 random; power-loss image = directory tree as of the cut, lost files at their last-synced bytes; judged like C03"),
         "C10" => s("C10", "seq", "fault_enumeration", 250, 2500, "per sampled history with an un-checkpointed tail: every truncation offset when the tail is <= 2 KiB (else record-relative offsets {0,1,7,8,39,40,43,44,45,mid,len-1}) and every checksum/payload byte x {^01,^80,!b,random} when <= 1 KiB (else sampled), capped by a per-history budget; open must fail or yield exactly the state after the undamaged prefix"),
+        "C11" => s("C11", "seq", "exploration", 48, 480, "separate-process part: real child processes of the harness binary, sequenced by pipe handshakes (deterministic by construction of the handshake, not by a controlled scheduler): owner child opens (and optionally writes) -> the parent's 1-3 opens must fail with AlreadyOpened and leave every file byte-identical -> owner exits or is SIGKILLed -> the parent's open succeeds and reads the owner's acknowledged write -> two children released together: exactly one OPENED, one AlreadyOpened"),
         "C12" => s("C12", "seq", "exploration", 5000, 50000, "known_blobs/contains_blob_hash/stats/get_size vs. model multiplicities after every audit, every reopen and every judged crash recovery; overflow checks enabled in the build"),
         "C13" => s("C13", "seq", "exploration", 5000, 50000, "aborted transactions (30% of ops) at every position, after any chunking, over existing values and existing blobs: directory fingerprint (cas/, staging/, WAL bytes, snapshot) and reads identical before/after, also after reopen"),
         "C14" => s("C14", "seq", "fault_enumeration", 300, 3000, "per sampled history: a dry run counts fallible mutating calls; each (<= 120 quick / 400 thorough, else sampled) is failed once with EIO/ENOSPC/EMFILE/EACCES without side effect; then 2-6 more operations, clean reopen, audit under a per-key {old,new} uncertainty model"),
